@@ -23,7 +23,7 @@ ASSUMPTIONS = ["sub-detectors declaring **kwargs are outside the alphabet (what 
 CHUNK = 4
 
 KINDS = ["LineA", "LineB", "Grid", "GridB", "ant", "list", "system"]
-KWSETS = [{}, {"power": 3.0}, {"gain": 5.0}, {"power": 3.0, "gain": 5.0}, {"unknown": 1}]
+KWSETS = [{}, {"power": 3.0}, {"gain": 5.0}, {"power": 3.0, "gain": 5.0, "threshold": 0.25}, {"unknown": 1}]
 
 _CLASSES = {}
 
@@ -85,7 +85,7 @@ def _classes():
             for i in range(n):
                 self.antenna_positions.append((x, 1.0, -20.0 - i))
 
-        def build_antennas(self, gain=2.0, threshold=0.5):
+        def build_antennas(self, gain=2.0, *, threshold=0.5):      # `threshold` is keyword-only
             self.got_build = {"gain": gain, "threshold": threshold}
             self.subsets = [Ant(position=p, gain=gain) for p in self.antenna_positions]
 
@@ -159,7 +159,8 @@ def cases(tier, seed):
         for seq in itertools.product(("LineA", "LineB", "ant"), repeat=4):
             out.append({"seq": list(seq), "hdepth": 2})
     for kind in KINDS:
-        out.append({"above": kind})
+        if kind != "GridB":
+            out.append({"above": kind})
     return out
 
 
@@ -273,7 +274,7 @@ def _one_tree(seq, shape, ops, use_sum, kw, fails, tag):
         if got is None:
             fail("build-kwargs", "%s was never built" % type(s).__name__)
             continue
-        for k, default in (("power", 1.0), ("gain", 2.0)):
+        for k, default in (("power", 1.0), ("gain", 2.0), ("threshold", 0.5)):
             if k in got:
                 want = kw.get(k, default)
                 if got[k] != want:
@@ -489,6 +490,22 @@ def evaluate(case):
                 good += bad
                 return good
             tests.append(mk2)
+
+            def mk3():
+                # a sub-detector that has opted out of the position test for ITSELF comes first; the offender after it is
+                # still somebody else's antenna above the ice
+                class Relaxed(C["LineA"]):
+                    test_antenna_positions = False
+                relaxed = Relaxed(1, x=0.0)
+                relaxed.build_antennas()
+                if kind == "ant":
+                    bad = C["Ant"](position=(1.0, 1.0, 3.0))
+                elif kind == "list":
+                    bad = [C["Ant"](position=(1.0, 1.0, -5.0)), C["Ant"](position=(1.0, 1.0, 3.0))]
+                else:
+                    bad = C["Sys"]((1.0, 1.0, 3.0))
+                return relaxed + bad
+            tests.append(mk3)
         for t in tests:
             n += 1
             try:
